@@ -125,6 +125,9 @@ func (w *histWorld) Exec(p *Plan, st *RunStats) *Violation {
 		op := op
 		safely(o, op, func() { s.Step(op, o) })
 		st.Ops++
+		if traceOn {
+			trace("op %d %s -> %016x", op.ID, op.N, hashStr(s.Obs()))
+		}
 		if o.Failed() {
 			break
 		}
